@@ -1,7 +1,7 @@
-//! C20 — string views, orderings and iterators agree with byte-wise semantics.
+//! C20 (numeric comparators) — decimal_strcmp / realnum_strcmp order strings by numeric value.
 use crate::common::*;
 use std::cmp::Ordering;
-use zipora::string::{decimal_strcmp, realnum_strcmp};
+use zipora::string::{decimal_strcmp, decimal_strcmp_with_sign, realnum_strcmp, realnum_strcmp_with_sign};
 
 /// Symbolic ASCII string of concrete length N over bytes < 0x80 (so it is valid UTF-8).
 fn sym_ascii<const N: usize>() -> [u8; N] {
@@ -73,15 +73,58 @@ fn numeric_pair<const LA: usize, const LB: usize>(real: bool) {
     let got = if real { realnum_strcmp(sa, sb) } else { decimal_strcmp(sa, sb) };
     if va && vb {
         assert!(got == Some(xa.cmp(&xb)), "numeric comparator disagrees with numeric value order");
-        if LA + LB > 2 {
-            zcover!(xa == xb && a[0] != b[0], "equal values with different spelling");
-        }
+        zcover!(xa == xb && a[0] != b[0], "opt: equal values with different spelling");
     } else {
         assert!(got.is_none(), "invalid numeric string not rejected");
     }
     zcover!(va && vb, "both valid");
     zcover!(!(va && vb), "one invalid");
 }
+
+/// Core comparison on sign-free, already validated digit strings (the documented precondition of
+/// the `*_with_sign` entry points): whole arrays, so every slice has a concrete base and length.
+fn numeric_ws<const LA: usize, const LB: usize>(real: bool) {
+    let a = sym_ascii::<LA>();
+    let b = sym_ascii::<LB>();
+    let (va, da, xa) = ref_real(&a, real);
+    let (vb, db, xb) = ref_real(&b, real);
+    assume(va && vb && da && db);
+    assume(a[0] != b'+' && a[0] != b'-' && b[0] != b'+' && b[0] != b'-');
+    let an: bool = vany();
+    let bn: bool = vany();
+    let sa = unsafe { core::str::from_utf8_unchecked(&a) };
+    let sb = unsafe { core::str::from_utf8_unchecked(&b) };
+    let got = if real { realnum_strcmp_with_sign(sa, an, sb, bn) } else { decimal_strcmp_with_sign(sa, an, sb, bn) };
+    let ya = if an { -xa } else { xa };
+    let yb = if bn { -xb } else { xb };
+    assert!(got == ya.cmp(&yb), "numeric comparator disagrees with numeric value order");
+    zcover!(ya == yb && a[0] != b[0], "opt: equal values with different spelling");
+    zcover!(ya == 0 && yb == 0 && an != bn, "opt: zero with both signs");
+    zcover!(ya < yb, "less reached");
+}
+
+macro_rules! c20_numeric_ws {
+    ($name:ident, $tier:ident, $unwind:literal, $la:literal, $lb:literal, $real:literal) => {
+        zv_harness! {
+            name: $name,
+            prop: "C20",
+            tier: $tier,
+            unwind: $unwind,
+            stubs: [alloc::fmt::format => crate::common::stubs::fmt_format],
+            targets: "string::numeric_compare::{realnum_strcmp_with_sign | decimal_strcmp_with_sign} (+ compare_decimal_magnitude, is_zero_magnitude, split_at_dot); last instance arg: true = realnum, false = decimal",
+            bounds: "two symbolic sign-free digit strings (realnum: at most one '.', >= 1 digit) of the concrete lengths given by the instance, symbolic sign flags",
+            oracle: "result == order of the exact signed values (scaled by 1000); -0 == +0",
+            body: { numeric_ws::<$la, $lb>($real) }
+        }
+    };
+}
+c20_numeric_ws!(c20_realnum_ws_2x2, quick, 8, 2, 2, true);
+c20_numeric_ws!(c20_realnum_ws_3x2, quick, 8, 3, 2, true);
+c20_numeric_ws!(c20_realnum_ws_3x3, thorough, 8, 3, 3, true);
+c20_numeric_ws!(c20_realnum_ws_4x3, thorough, 8, 4, 3, true);
+c20_numeric_ws!(c20_decimal_ws_2x2, quick, 8, 2, 2, false);
+c20_numeric_ws!(c20_decimal_ws_3x2, quick, 8, 3, 2, false);
+c20_numeric_ws!(c20_decimal_ws_4x4, thorough, 8, 4, 4, false);
 
 macro_rules! c20_realnum_pair {
     ($name:ident, $tier:ident, $unwind:literal, $la:literal, $lb:literal) => {
@@ -114,6 +157,9 @@ macro_rules! c20_decimal_pair {
     };
 }
 
-c20_realnum_pair!(c20_realnum_pair_1x1, quick, 8, 1, 1);
-c20_realnum_pair!(c20_realnum_pair_2x2, quick, 8, 2, 2);
+c20_realnum_pair!(c20_realnum_pair_1x1, thorough, 8, 1, 1);
+c20_realnum_pair!(c20_realnum_pair_2x1, thorough, 8, 2, 1);
+c20_realnum_pair!(c20_realnum_pair_2x2, thorough, 8, 2, 2);
+c20_decimal_pair!(c20_decimal_pair_1x1, quick, 8, 1, 1);
 c20_decimal_pair!(c20_decimal_pair_2x2, quick, 8, 2, 2);
+c20_decimal_pair!(c20_decimal_pair_3x2, thorough, 8, 3, 2);
